@@ -489,18 +489,25 @@ def _judge(case, ctx):
     if kind == 'dicts-roundtrip':
         if not rows:
             return None
-        got = util.attempt_rows_twice(lambda: petl.fromdicts(petl.dicts(table)), live=table)
+        # missing=: the filler for a field a record does not carry.  Every record of dicts(t) carries every field (a None cell is
+        # a key that is present), so no choice of filler may show in the result
+        mkw = [{}, {'missing': 'NA'}, {'missing': 0}][int(util.fp(case)[4:6], 16) % 3]
+        if mkw:
+            ctx.seen('fromdicts-with-a-non-default-missing')
+            if any(c is None for r in rows for c in r):
+                ctx.seen('fromdicts-with-a-non-default-missing:None-cells-present')
+        got = util.attempt_rows_twice(lambda: petl.fromdicts(petl.dicts(table), **mkw), live=table)
         d = _diff(got, [tuple(hdr)] + rows, 'fromdicts(dicts)')
         if d:
             return d
-        got = util.attempt_rows_twice(lambda: petl.fromdicts(list(petl.dicts(copy.deepcopy(case['table']))), header=list(hdr)))
+        got = util.attempt_rows_twice(lambda: petl.fromdicts(list(petl.dicts(copy.deepcopy(case['table']))), header=list(hdr), **mkw))
         d = _diff(got, [tuple(hdr)] + rows, 'fromdicts(list(dicts), header)')
         if d:
             return d
         # header discovery samples the first `sample` records: every record carries every field, so any sample >= 1 must do
         for sample in range(1, len(rows) + 2):
             for src in (lambda: list(petl.dicts(copy.deepcopy(case['table']))), lambda: (x for x in list(petl.dicts(copy.deepcopy(case['table']))))):
-                got = util.attempt_rows_twice(lambda: petl.fromdicts(src(), sample=sample))
+                got = util.attempt_rows_twice(lambda: petl.fromdicts(src(), sample=sample, **mkw))
                 d = _diff(got, [tuple(hdr)] + rows, 'fromdicts(dicts, sample=%d)' % sample)
                 if d:
                     return d
@@ -510,7 +517,7 @@ def _judge(case, ctx):
         exp = util.crows([tuple(hdr)] + rows)
         for lag in (1, 2, 3):
             for hdr_arg in (None, list(hdr)):
-                kw = {'header': hdr_arg} if hdr_arg else {}
+                kw = dict(mkw, header=hdr_arg) if hdr_arg else dict(mkw)
                 v = petl.fromdicts((x for x in list(petl.dicts(copy.deepcopy(case['table'])))), **kw)
                 lead, follow = iter(v), iter(v)
                 gl, gf = [], []
